@@ -126,6 +126,11 @@ def run(ctx):
     only = prog.reachable_bodies(roots)
     key_discipline(ctx, prog, flows, "R-C11-5", only, 0, 1, why=" -- restricted to what the clustering functions call: the weighted coefficients read edge weights through these lookups")
 
+    # ------------------------------------------------------------------ R-C11-6
+    from graphrules import adjacency_name_maps_only_keyed
+
+    adjacency_name_maps_only_keyed(ctx, prog, flows, "R-C11-6", ("algorithms::cluster",), "so a node without edges gets no coefficient / triangle count and the answer for all nodes disagrees with the answer for a subset")
+
     # ------------------------------------------------------------------ R-C11-3
     ctx.rule("R-C11-3", "results of the subset-taking functions depend (data flow, not merely validation) on node_names")
     for sfx in ("cluster::clustering", "cluster::triangles", "cluster::generalized_degree", "cluster::average_clustering", "square::square_clustering"):
